@@ -117,7 +117,21 @@ func exactBatches(rng *rand.Rand, g *world.Gen) func(uint32, *world.BlockSpec) {
 			if conv == x.asset {
 				conv = 2 + (conv-1)%20
 			}
-			switch rng.Intn(13) {
+			switch rng.Intn(14) {
+			case 13: // PEG transfers that need the PEG a conversion earlier in the batch asks for
+				// (while the PEG bank limits conversions the PEG is only paid after all
+				// batches of the block are known)
+				if x.asset != model.PEG {
+					var P uint64
+					for _, y := range hs {
+						if y.ref == x.ref && y.asset == model.PEG {
+							P = y.amt
+						}
+					}
+					if P > 1 {
+						bs.Tx = append(bs.Tx, txFrom(x.ref, nextNonce(), world.TxPart{Asset: x.asset, Amt: B/2 + 1, Conv: model.PEG}, xfer(model.PEG, P, other), xfer(model.PEG, 1, other)))
+					}
+				}
 			case 11: // forged: second transaction spends from someone else's address, only the first signer signs
 				if len(hs) > 1 {
 					v := hs[rng.Intn(len(hs))]
@@ -169,6 +183,24 @@ func burnAddressTraffic(rng *rand.Rand, g *world.Gen) func(uint32, *world.BlockS
 		hs := f.funded(h, g.P.Users)
 		if len(hs) == 0 {
 			return
+		}
+		// keep the adjusted addresses stocked with the assets at both ends of the
+		// ticker list (the one-time adjustments walk the whole list)
+		ends := map[int]bool{2: true, 33: true, world.NumTickers - 1: true, world.NumTickers: true}
+		if rng.Intn(2) == 0 {
+			x := hs[rng.Intn(len(hs))]
+			dst := []int{2, 33, world.NumTickers - 1, world.NumTickers, world.NumTickers}[rng.Intn(5)]
+			if x.asset != dst {
+				bs.Tx = append(bs.Tx, txFrom(x.ref, nextNonce(), world.TxPart{Asset: x.asset, Amt: 1 + x.amt/uint64(3+rng.Intn(20)), Conv: dst}))
+			}
+		}
+		sent := 0
+		for _, y := range hs {
+			if ends[y.asset] && sent < 2 && rng.Intn(2) == 0 {
+				to := []int{world.AddrBurn, world.AddrBurn, world.AddrMint}[rng.Intn(3)]
+				bs.Tx = append(bs.Tx, txFrom(y.ref, nextNonce(), xfer(y.asset, 1+y.amt/2, to)))
+				sent++
+			}
 		}
 		x := hs[rng.Intn(len(hs))]
 		to := []int{world.AddrBurn, world.AddrOldBurn, world.AddrMint}[rng.Intn(3)]
@@ -336,8 +368,13 @@ func pegRequests(rng *rand.Rand, g *world.Gen) func(uint32, *world.BlockSpec) {
 				bankInSrc = uint64(float64(model.LegacyBank) * float64(last[model.PEG]) / float64(last[x.asset]))
 			}
 			amt := bankInSrc / uint64(1+rng.Intn(2*n))
-			if rng.Intn(4) == 0 {
+			switch rng.Intn(8) {
+			case 0, 1:
 				amt = bankInSrc + uint64(rng.Intn(1000))
+			case 2:
+				// a request so small that its share of an oversubscribed bank rounds
+				// to zero: everything it put in must come back as a refund
+				amt = uint64(1 + rng.Intn(3))
 			}
 			if equal {
 				if eqAmt == 0 {
